@@ -284,6 +284,13 @@ def do_for(ex, node: ast.For, st: State):
     if r is not None:
         return r
     seq, bind = iter_shape(ex, node, st)
+    early = ex.flush_exits(st)
+    if early:
+        return early + _do_for_rest(ex, node, st, seq, bind)
+    return _do_for_rest(ex, node, st, seq, bind)
+
+
+def _do_for_rest(ex, node, st, seq, bind):
     if isinstance(seq, (VTup, VPyList)):
         return unroll(ex, node, st, seq.items, bind)
     if isinstance(seq, tuple) and seq[0] == "range":
@@ -343,7 +350,9 @@ def do_for(ex, node: ast.For, st: State):
             e2["_k"] = VNum(k + 1, "int")
             g2 = eval_clause(ex, info, inv, s2, e2)
             from .verify import apply_hint
-            apply_hint(ex, info, f"hint_inv_{k_ord}", s2)
+            for sfx in sorted(info.clauses(f"hint_inv_{k_ord}")):
+                if sfx == "" or sfx[0].isalpha():  # hint_inv_<k>, hint_inv_<k>a, hint_inv_<k>b, ... (each skipped where its locals do not exist)
+                    apply_hint(ex, info, f"hint_inv_{k_ord}{sfx}", s2)
             ex.ctx.oblige(s2, g2, f"inv-preserved[{k_ord}]", where)
         elif kind == "break":
             outs.append(("fall", s2, None))
